@@ -562,7 +562,7 @@ def run_deg(c):
     res, f = call(f"intersect:{what}:secant", Q.intersect, L)
     if f:
         return [f]
-    ck.check(len(res) == 2 and C.multiset_peq([x.array for x in res], [np.append(p1, 1), np.append(p2, 1)], 1e-5), f"intersect:{what}:secant-through-known-points", ([x.array.tolist() for x in res], p1.tolist(), p2.tolist()))
+    ck.check(len(res) == 2 and C.multiset_peq([x.array for x in res], [np.append(p1, 1), np.append(p2, 1)], 1e-3), f"intersect:{what}:secant-through-known-points", ([x.array.tolist() for x in res], p1.tolist(), p2.tolist()))
     return ck.result()
 
 
